@@ -34,6 +34,22 @@ def denit_record(c):
     return "(%s, %s, %s, %s, %s, (%s, %s))" % (fls(i["c1"]), fl(i["nq"]), fl(i["fth"]), fl(i["fte"]), fl(i["cum"]), fls(o["c1"]), fl(o["cum"]))
 
 
+def denitmo_record(c):
+    i, o = c["in"], c["out"]
+    return "(%s, %s, %s, %s, %s, (%s, %s))" % (fls(i["c1"]), fls(i["nq"]), fls(i["fth"]), fls(i["fte"]), fl(i["cum"]), fls(o["c1"]), fl(o["cum"]))
+
+
+def till_record(c):
+    full = nmove_record(c["in"], {"pe": [], "c1": [], "q10": "0x0p+00", "d": [], "v": [], "db": [], "disp": [], "konv": [],
+                                  "unstable": False, "cnt": []})
+    nin = full[1:full.index(", {| nb_pe")]
+    p, o = c["pre"], c["out"]
+    return ("(%s, {| tl_eint := %s; tl_tilart := %d%%Z; tl_nfos := %s; tl_naos := %s; tl_minfos := %s; tl_minaos := %s; "
+            "tl_o_nfos := %s; tl_o_naos := %s; tl_o_minfos := %s; tl_o_minaos := %s; tl_o_c1 := %s |})"
+            % (nin, fl(p["eint"]), p["tilart"], fls(p["nfos"]), fls(p["naos"]), fls(p["minfos"]), fls(p["minaos"]),
+               fls(o["nfos"]), fls(o["naos"]), fls(o["minfos"]), fls(o["minaos"]), fls(o["c1"])))
+
+
 KINDS = {
     "nmove": ("(nmove_in (T:=float) * nmove_obs)", "nmove_check", lambda c: nmove_record(c["in"], c["out"]),
               ["PE", "C1", "Q1[0]", "D/V/DB", "DISP", "KONV", "instability flag", "counters"], 60),
@@ -41,6 +57,10 @@ KINDS = {
                 ["layer pools/DN/DUMS", "scalars"], 200),
     "denit": ("(list float * float * float * float * float * (list float * float))", "denit_check", denit_record,
               ["C1", "CUMDENIT"], 400),
+    "denitmo": ("(list float * list float * list float * list float * float * (list float * float))", "denitmo_check",
+                denitmo_record, ["C1", "CUMDENIT"], 400),
+    "till": ("(nmove_in (T:=float) * till_obs)", "till_check", till_record,
+             ["NFOS/NAOS", "MINFOS/MINAOS", "C1 after the transport step"], 100),
 }
 
 
